@@ -128,6 +128,28 @@ def check_occupancy(prog: Program, rep: Report) -> None:
                 rep.ob("R11.1-no-append-beyond-cap", bool(prior), Loc(file, n.lineno, f"{cls.name}.{fn.name}"), n,
                        "an occupant is appended outside a cap-guarded placement and not in exchange for a removed occupant of "
                        "the same cell: the cell can list more occupants than its limit")
+    # a surplus list may be dropped only when it is empty
+    for fn in cls.methods.values():
+        for n in ast.walk(fn):
+            if isinstance(n, ast.Delete) and any(isinstance(t, ast.Subscript) and self_attr(t.value) == roles.sur for t in n.targets):
+                cell = [norm(t.slice) for t in n.targets if isinstance(t, ast.Subscript)][0]
+                g = _enclosing_if(fn, n)
+                ok = False
+                if g is not None:
+                    t = g.test
+                    if isinstance(t, ast.UnaryOp) and isinstance(t.op, ast.Not):
+                        inner = t.operand
+                        if isinstance(inner, ast.Call) and isinstance(inner.func, ast.Attribute) and inner.func.attr == "get" \
+                                and self_attr(inner.func.value) == roles.sur and inner.args and norm(inner.args[0]) == cell:
+                            ok = len(inner.args) == 2 and norm(inner.args[1]) == "True"
+                        elif isinstance(inner, ast.Subscript) and self_attr(inner.value) == roles.sur and norm(inner.slice) == cell:
+                            ok = True
+                    elif isinstance(t, ast.Compare) and norm(t.left) == f"len(self.{roles.sur}[{cell}])" and isinstance(t.ops[0], ast.Eq) \
+                            and norm(t.comparators[0]) == "0":
+                        ok = True
+                rep.ob("R11.1-surplus-list-dropped-only-if-empty", ok, Loc(file, n.lineno, f"{cls.name}.{fn.name}"), g.test if g is not None else n,
+                       "a cell's surplus list may be deleted only when it has become empty; deleting a non-empty list loses its units: "
+                       "they are then recorded neither as occupants nor as surplus and no event family treats them")
     # ---- update --------------------------------------------------------------------------------------------------------
     upd = cls.methods.get("update")
     if upd is None:
